@@ -90,7 +90,17 @@ def build(template_path, repo=None):
     u = VUnit()
     u.name = hdr.get("unit", os.path.basename(template_path)).strip()
     u.file = os.path.relpath(template_path, VERIF)
-    u.fns = [x.strip() for x in hdr.get("fns", "").split(",") if x.strip()]
+    # split at commas that are not inside parentheses (the descriptions in brackets may contain commas)
+    fns, depth, cur = [], 0, ""
+    for ch in hdr.get("fns", ""):
+        if ch == "(": depth += 1
+        if ch == ")": depth = max(0, depth - 1)
+        if ch == "," and depth == 0:
+            fns.append(cur); cur = ""
+        else:
+            cur += ch
+    fns.append(cur)
+    u.fns = [x.strip() for x in fns if x.strip()]
     u.tier = hdr.get("tier", "quick").strip()
     u.pair = hdr.get("pair", "").strip() or None
     pieces, rec = {}, dict(extracted=[], rewrites=[], drops=[], inserts=[])
